@@ -125,10 +125,13 @@ CHECKS.update({
                  "ht-after-meta / prune-after-meta guards); every page write, resize and unlink recorded from the real store across "
                  "store configurations is validated by TLC (SyncTrace) against the pre-image decoded from meta and the free lists: "
                  "before the meta page is durable ln/bbn writes only hit free or beyond-bump pages, the hash table is untouched, no "
-                 "rollback segment is unlinked (a page re-emitted with the bytes it already holds is not a modification)." + _SEG % "" +
+                 "rollback segment is unlinked (a page re-emitted with the bytes it already holds is not a modification); the store's own free "
+                 "list is not trusted to say what is writable: a page reachable from the old image's trees (independent decoder) is not, "
+                 "and a committed call that took a page from the old list must leave a rewritten list (list-rewritten, the trace form of "
+                 "FreeList!HeadMovesWhenTaken)." + _SEG % "" +
                  " The free list of the value files is transcribed in FreeList.tla and model-checked (CopyOnWrite, NoWriteToLiveOrFreed; "
-                 "mutants), and a sweep of free-list shapes (several full pages under a nearly empty head, thousands of pages released "
-                 "at once) is part of the recorded histories.", "DESIGN.md 4/C17, 11",
+                 "HeadMovesWhenTaken; mutants), and a sweep of free-list shapes (several full pages under a nearly empty head, thousands of "
+                 "pages released at once; trees emptied and refilled across a reopen) is part of the recorded histories.", "DESIGN.md 4/C17, 11",
                  "TLA+ NomtSync and Seglog model-checked with TLC incl. guard mutants; recorded I/O event streams of the real store "
                  "validated by TLC against the decoded pre-image (SyncTrace) and against Seglog (SeglogTrace)"),
 })
